@@ -1,8 +1,10 @@
 import TaurexModel.Proto
 import TaurexModel.OptimizerSM
+import TaurexModel.FittingSection
+import TaurexModel.Ops.C08
 
 namespace Taurex.Ops.C07
-open Taurex.Proto Taurex.Priors Taurex.OptimizerSM
+open Taurex.Proto Taurex.Priors Taurex.OptimizerSM Taurex.FittingSection
 
 abbrev S := St String Float
 
@@ -140,7 +142,122 @@ def impliedOp (args : List String) : Option String :=
     pure (" ".intercalate [fOut o, fList fEntry v.entries, fList (fPrior z10 z90) v.priors, fList id v.derived,
                            fList fName (impliedNames v)])) args
 
+/-! ### `[Fitting]` / `[Derive]` sections -/
+
+def digitsToNat (cs : List Char) : Nat := cs.foldl (fun n c => 10 * n + (c.toNat - '0'.toNat)) 0
+
+/-- value of a number literal of the documented form (what Python's `float()` gives, up to rounding) -/
+def litToFloat (s : String) : Option Float :=
+  match lexNumber s.toList with
+  | some (_, _ :: _) => none
+  | none => none
+  | some (_, []) =>
+    let sg := takeSign s.toList
+    let neg := sg.1 == ['-']
+    let ip := spanP isDigitsChar sg.2
+    let (fp, rest) : List Char × List Char := match ip.2 with
+      | '.' :: r => let f := spanP isDigitsChar r; (f.1, f.2)
+      | r => ([], r)
+    let ex : Int := match rest with
+      | _ :: r =>
+        let es := takeSign r
+        let d : Int := digitsToNat (spanP isDigitsChar es.2).1
+        if es.1 == ['-'] then -d else d
+      | [] => 0
+    let m := digitsToNat (ip.1 ++ fp)
+    let e : Int := ex - fp.length
+    let v : Float := if e < 0 then Float.ofScientific m true e.natAbs else Float.ofScientific m false e.natAbs
+    some (if neg then -v else v)
+
+/-- `create_prior(value)` on a typed section value: only a string can be parsed -/
+def mkPriorF : OptVal Float → Option (Prior Float)
+  | .str s =>
+    match parsePrior s with
+    | none => none
+    | some c =>
+      let conv : ArgVal String → Option (ArgVal Float) := fun v => match v with
+        | .num x => (litToFloat x).map ArgVal.num
+        | .tuple xs => (xs.mapM litToFloat).map ArgVal.tuple
+        | .list xs => (xs.mapM litToFloat).map ArgVal.list
+      match c.args.mapM (fun a => (conv a.2).map (fun v => (a.1, v))) with
+      | none => none
+      | some as =>
+        match createPrior (0.5 : Float) 0.25 ⟨c.fn, as⟩ with
+        | .ok p => some p
+        | _ => none
+  | _ => none
+
+def optValP : P (OptVal Float) := do
+  let k ← nat
+  match k with
+  | 0 => do let b ← bool; pure (.bool b)
+  | 1 => do let x ← flt; pure (.num x)
+  | 2 => do let s ← Taurex.Ops.C08.str; pure (.str s)
+  | 3 => do let xs ← listOf flt; pure (.nums xs)
+  | 4 => do let xs ← listOf Taurex.Ops.C08.str; pure (.strs xs)
+  | _ => failure
+
+def entryP : P (String × OptVal Float) := do
+  let k ← Taurex.Ops.C08.str
+  let v ← optValP
+  pure (k, v)
+
+def fSetupOut : SetupOut → String
+  | .ok => "0"
+  | .keyError => "1"
+  | .valueError => "2"
+  | .priorError => "3"
+  | .unsupported => "4"
+
+/-- `code name a b text priorkind pa pb` -/
+def fOp (op : OptimizerSM.Op String Float) : String :=
+  let z := fF 0
+  let noP := s!"9 {z} {z}"
+  let fP : Prior Float → String := fun p => match p with
+    | .uniform a b => s!"0 {fF a} {fF b}"
+    | .logUniform a b => s!"1 {fF a} {fF b}"
+    | .gaussian a b => s!"2 {fF a} {fF b}"
+    | .logGaussian a b => s!"3 {fF a} {fF b}"
+  let e := Taurex.Ops.C08.esc
+  match op with
+  | .enableFit n => s!"0 {e n} {z} {z} - {noP}"
+  | .disableFit n => s!"1 {e n} {z} {z} - {noP}"
+  | .setMode n m => s!"2 {e n} {z} {z} {e m} {noP}"
+  | .setBoundary n a b => s!"3 {e n} {fF a} {fF b} - {noP}"
+  | .setFactorBoundary n a b => s!"4 {e n} {fF a} {fF b} - {noP}"
+  | .setPrior n p => s!"5 {e n} {z} {z} - {fP p}"
+  | .enableDerived n => s!"6 {e n} {z} {z} - {noP}"
+  | .disableDerived n => s!"7 {e n} {z} {z} - {noP}"
+  | .compile => s!"8 - {z} {z} - {noP}"
+  | .updateModel _ => s!"9 - {z} {z} - {noP}"
+
+/-- `c07.setup z10 z90 model obs dmodel dobs fitting derive` → outcome of `setup_optimizer`, the calls made,
+    the observation after it, the outcome of a following `compile_params` and the observation after that,
+    and the specification `implied (sectionSettings …)` when the sections group (view as in `c07.implied`) -/
+def setupOp (args : List String) : Option String :=
+  run (do
+    let z10 ← flt
+    let z90 ← flt
+    let model ← listOf paramP
+    let obs ← listOf paramP
+    let dmodel ← listOf derivedP
+    let dobs ← listOf derivedP
+    let fitting ← listOf entryP
+    let derive ← listOf entryP
+    let s0 : S := initSt model obs dmodel dobs
+    let r := setupOptimizer mkPriorF s0 fitting derive
+    let c := step r.1 .compile
+    let spec : String := match parseFitting mkPriorF fitting [], splitAll derive with
+      | .ok grp, some dl =>
+        let (v, o) := implied (sectionSettings s0 grp (deriveRecs dl []))
+        let fEntry : Entry String Float → String := fun e =>
+          s!"{if e.owner = Owner.model then 0 else 1} {e.name} {fMode e.mode} {fF e.b0} {fF e.b1}"
+        "1 " ++ " ".intercalate [fOut o, fList fEntry v.entries, fList (fPrior z10 z90) v.priors, fList id v.derived,
+                                 fList fName (impliedNames v)]
+      | _, _ => "0"
+    pure (" ".intercalate [fSetupOut r.2.1, fList fOp r.2.2, fObs z10 z90 r.1 .ok, fObs z10 z90 c.1 c.2, spec])) args
+
 def ops : List Taurex.Proto.Op :=
-  [("c07.run", runOp false), ("c07.run_pinned", runOp true), ("c07.implied", impliedOp)]
+  [("c07.run", runOp false), ("c07.run_pinned", runOp true), ("c07.implied", impliedOp), ("c07.setup", setupOp)]
 
 end Taurex.Ops.C07
